@@ -77,9 +77,13 @@ def deferred_storage_run(rng, n):
     rn = mgrcheck.Runner(PROP)
     if rn.err:
         return dict(what='build error: %s' % rn.err, opn=0, op='', script='', lines=[]), 0
+    # plus ordinary histories with clear() / clearArchetype() and refills: no crash inside the contract (dead slots, stale counts)
+    prof2 = dict(mgr.PROFILE_BASIC)
+    prof2['weights'] = dict(prof2['weights'], clear=4, cleararch=6, destroynow=14, create=30, lock=3, unlock=5)
+    scripts += [('h%d' % i, mgr.gen_script(rng.fork('c10h-%d' % i), 70, prof2)) for i in range(n)]
     impl, model, spec = rn.run(scripts, tag='deferred')
     res = mgrcheck.tier_a(impl, spec, scripts, {'tmpaddr'})
-    res = [r for r in res if r['aspect'] == 'tmpaddr']
+    res = [r for r in res if r['aspect'] in ('tmpaddr', 'crash')]
     if res:
         r = res[0]
         r['lines'] = dict(scripts)[r['script']][:r['opn'] + 1]
